@@ -606,6 +606,13 @@ impl NamespaceResolver {
         }
     }
 
+    /// Ends the top-most scopes until only `level` scopes remain open
+    pub fn pop_to(&mut self, level: usize) {
+        while self.nesting_level > level as i32 {
+            self.pop();
+        }
+    }
+
     /// Resolves a potentially qualified **element name** or **attribute name**
     /// into (namespace name, local name).
     ///
